@@ -97,10 +97,14 @@ func (v *VM) run(codes []instruction, slots int) (rets []Value, err error) {
 }
 
 func (v *VM) Func(fnc Value, xRets int, params ...Value) (rets []Value, err error) {
+	// the VM works on its own stack: appending to params would let the call write
+	// its locals and results into spare capacity of the caller's slice
+	stack := make([]Value, len(params), len(params)+1)
+	copy(stack, params)
 	vm := VM{
 		globals: v.globals,
 		stdout:  v.stdout,
-		stack:   append(params, fnc),
+		stack:   append(stack, fnc),
 		frame: frame{Codes: []instruction{{
 			Code: codeCall,
 			A:    reg(len(params)),
